@@ -206,3 +206,4 @@ from props_pure import *
 from props_algebra import *
 from props_engine import *
 from props_sem import *
+from props_schema import *
